@@ -97,7 +97,7 @@ func scenarios() []*scenario {
 		},
 		{ // ring built with NewCustomConsistentHash(200, nil): default hash, larger replica cap
 			Name: "ring200", RingReplicas: 200,
-			Nodes: []nodeSpec{{"a", "a", "a"}, {"b", "b", "b"}, {"S(a)", "a", sNode{"a"}}, {"int(7)", "7", 7}},
+			Nodes: []nodeSpec{{"a", "a", "a"}, {"b", "b", "b"}, {"int(7)", "7", 7}},
 			Rs:    []int{1, 50, 100, 150, 250}, Ws: stdWs, DepthQuick: 4, DepthThorough: 5,
 		},
 		{ // ring built with NewCustomConsistentHash(50, nil): replicas raised to minReplicas
